@@ -40,6 +40,11 @@ type sockSim struct {
 	closed    []int
 	recvFlags []int
 	sockets   int
+	// sendto(2) answers: a datagram whose 4-byte payload is a marker listed here is refused with
+	// the given errno (nothing reaches the wire); sendErrAt refuses the k-th call (0-based)
+	failMarkers map[uint32]error
+	sendErrAt   map[int]error
+	sendCalls   int
 }
 
 type sentDatagram struct {
@@ -68,6 +73,16 @@ func (s *sockSim) Getsockname(fd int) (syscall.Sockaddr, error) {
 func (s *sockSim) Sendto(fd int, p []byte, flags int, to syscall.Sockaddr) error {
 	s.mu.Lock()
 	defer s.mu.Unlock()
+	k := s.sendCalls
+	s.sendCalls++
+	if e := s.sendErrAt[k]; e != nil {
+		return e
+	}
+	if len(p) == 20 && s.failMarkers != nil {
+		if e := s.failMarkers[binary.LittleEndian.Uint32(p[16:])]; e != nil {
+			return e
+		}
+	}
 	s.sent = append(s.sent, sentDatagram{fd, append([]byte{}, p...), flags, to})
 	return nil
 }
@@ -235,7 +250,51 @@ func checkSend(r reporter, tier string) (evals, nontrivial int64) {
 			}
 		}
 	}
+	// sendto(2) refusing some of the calls (EMSGSIZE, ENOBUFS, EAGAIN, EPERM): every failure pattern over 6
+	// consecutive Sends on one client.  Failed or not, every call returns a NEW, larger number, and
+	// what did reach the wire carries the number its own call returned
+	for _, errno := range []syscall.Errno{syscall.EMSGSIZE, syscall.ENOBUFS, syscall.EAGAIN, syscall.EPERM} {
+		for mask := 1; mask < 64; mask++ {
+			fs := &sockSim{sendErrAt: map[int]error{}}
+			fc, err := newClient(fs, 0)
+			if err != nil {
+				r.run.Errorf("NewNetlinkClient: %v", err)
+				return
+			}
+			for k := 0; k < 6; k++ {
+				if mask&(1<<k) != 0 {
+					fs.sendErrAt[k] = errno
+				}
+			}
+			var returned []uint32
+			bad := false
+			for k := 0; k < 6; k++ {
+				before := len(fs.sent)
+				seq, err := fc.Send(syscall.NetlinkMessage{Header: syscall.NlMsghdr{Type: 1000, Flags: 5}, Data: []byte{byte(k), 0, 0, 0}})
+				evals++
+				failed := mask&(1<<k) != 0
+				if failed != (err != nil) {
+					r.rep("send-error-swallowed", "sendto answered %v for call %d of pattern %06b, Send returned err=%v", fs.sendErrAt[k], k, mask, err)
+					bad = true
+				}
+				if !failed && (len(fs.sent) != before+1 || binary.LittleEndian.Uint32(fs.sent[before].b[8:]) != seq) {
+					r.rep("send-seq-mismatch", "after refused sends (pattern %06b, %v) call %d returned %d but its datagram carries something else", mask, errno, k, seq)
+					bad = true
+				}
+				if len(returned) > 0 && seq <= returned[len(returned)-1] {
+					r.rep("send-seq-not-increasing", "sendto refused some calls (pattern %06b, bit k = call k failed, %v): consecutive Send calls returned %v then %d", mask, errno, returned, seq)
+					bad = true
+				}
+				returned = append(returned, seq)
+			}
+			if !bad {
+				nontrivial++
+			}
+			_ = fc.Close()
+		}
+	}
 	r.run.Sample(fmt.Sprintf("Send(type=1001 flags=0x5 pid=0 payload=44 bytes) => 60-byte datagram, nlmsg_len=60, pid=%d, seq=returned value", portID))
+	vsys.Install(s)
 	if err := c.Close(); err != nil || len(s.closed) != 1 || s.closed[0] != 7 {
 		r.rep("close", "Close returned %v and closed fds %v, want fd 7 once", err, s.closed)
 	}
@@ -530,7 +589,10 @@ func checkParser(r reporter) (evals, nontrivial int64) {
 
 // ---- concurrent Send under the scheduler ---------------------------------------------
 
-type sendProg struct{ Threads []int }
+type sendProg struct {
+	Threads []int
+	Fail    []uint32 // markers (thread*100+k) of the calls whose sendto is refused with ENOBUFS
+}
 
 type sendHarness struct {
 	p     sendProg
@@ -551,6 +613,12 @@ type sendCall struct {
 
 func newSendHarness(p sendProg) *sendHarness {
 	h := &sendHarness{p: p, s: &sockSim{}}
+	if len(p.Fail) > 0 {
+		h.s.failMarkers = map[uint32]error{}
+		for _, m := range p.Fail {
+			h.s.failMarkers[m] = syscall.ENOBUFS
+		}
+	}
 	c, err := newClient(h.s, 0)
 	if err != nil {
 		panic(err)
@@ -603,7 +671,11 @@ func (h *sendHarness) Finish(res *sched.Result) (string, []explore.Finding) {
 	var obs []string
 	for _, c := range h.calls {
 		seen[c.seq]++
-		if w, ok := byMarker[c.marker]; !ok || w != c.seq {
+		if c.err != nil {
+			if h.s.failMarkers[c.marker] == nil {
+				f = append(f, explore.Finding{Sig: "concurrent-send-error", What: fmt.Sprintf("Send returned %v", c.err)})
+			}
+		} else if w, ok := byMarker[c.marker]; !ok || w != c.seq {
 			f = append(f, explore.Finding{Sig: "concurrent-send-seq-mismatch", What: fmt.Sprintf("Send returned %d but its own datagram carries %d", c.seq, w)})
 		}
 		obs = append(obs, fmt.Sprintf("t%d:%d", c.thread, c.seq))
@@ -625,9 +697,13 @@ func (h *sendHarness) Finish(res *sched.Result) (string, []explore.Finding) {
 }
 
 func sendPrograms(tier string) []sendProg {
-	ps := []sendProg{{[]int{1, 1}}, {[]int{2, 1}}, {[]int{2, 2}}, {[]int{1, 1, 1}}, {[]int{2, 1, 1}}}
+	ps := []sendProg{{Threads: []int{1, 1}}, {Threads: []int{2, 1}}, {Threads: []int{2, 2}}, {Threads: []int{1, 1, 1}}, {Threads: []int{2, 1, 1}},
+		// some calls refused by sendto while others are in flight
+		{Threads: []int{1, 1}, Fail: []uint32{0}}, {Threads: []int{2, 1}, Fail: []uint32{0}}, {Threads: []int{2, 1}, Fail: []uint32{1}}, {Threads: []int{2, 2}, Fail: []uint32{0, 101}},
+		{Threads: []int{1, 1, 1}, Fail: []uint32{100}}, {Threads: []int{2, 1, 1}, Fail: []uint32{1, 200}}}
 	if tier == "thorough" {
-		ps = append(ps, sendProg{[]int{2, 2, 2}}, sendProg{[]int{3, 3}}, sendProg{[]int{3, 2, 1}})
+		ps = append(ps, sendProg{Threads: []int{2, 2, 2}}, sendProg{Threads: []int{3, 3}}, sendProg{Threads: []int{3, 2, 1}},
+			sendProg{Threads: []int{2, 2, 2}, Fail: []uint32{0, 101}}, sendProg{Threads: []int{3, 3}, Fail: []uint32{1, 100}})
 	}
 	return ps
 }
